@@ -54,6 +54,21 @@ PROPS = {
         "assumptions": ["a reply handed to one Write call is not interleaved with another Write on the same connection (Go net / crypto/tls contract)"],
         "explanation": "Gen.* framing functions proved equal to Model.C16 and the round-trip / exact-size / error theorems proved for every chunking; correspondence runs the real functions on the same streams and chunkings.",
     },
+    "C18": {
+        "lean_targets": ["MosdnsVerif.Props.C18"],
+        "obligation_files": ["MosdnsVerif/Props/C18.lean", "MosdnsVerif/Refine/C18.lean"],
+        "namespaces": ["Props.C18", "Refine.C18"],
+        "driver": "drv_C18",
+        "gen_functions": ["tryTrimIpv6Brackets"],
+        "gen_facts": ["portUdp", "portTcp", "portTls", "portHttps", "portQuic", "hostIsTrimmedUrlHost"],
+        "level": "proof",
+        "level_text": "Machine-checked proof (Lean 4): for every address of the grammar (hostname/IPv4 with or without port, bracketed IPv6 with or without port, bare IPv6, each optionally overridden by dial_addr in its four forms) the dial target computed by parseDialAddr on the bracket-trimmed URL host is exactly the host and port written (scheme default when omitted), an unparsable port is rejected, and the default TLS server name is the URL host. tryTrimIpv6Brackets is regenerated from source (T1) and the default ports are regenerated facts (T2); net.SplitHostPort enters through an explicit contract that the correspondence checks against the real library. Black-box runs of NewUpstream behind a SOCKS5 observer confirm the dialled host, port and SNI.",
+        "level_note": "Trusted: net/url host extraction, net.SplitHostPort (contract checked by sampling against the real function), strconv.ParseUint, golang.org/x/net/proxy, crypto/tls SNI behaviour. Interpretation: dial_addr replaces host and port (scheme default if it has no port). QUIC/HTTP3 dialling is covered at the parseDialAddr level only.",
+        "technique": "Lean 4 proof over T1/T2-regenerated definitions under an explicit stdlib contract + differential correspondence + SOCKS5/TLS/UDP black-box observation",
+        "trusted": ["modelled, not verified: net/url.Parse (Host extraction), net.SplitHostPort (SplitContract), strconv.ParseUint, socks5 client, crypto/tls"],
+        "assumptions": ["dial_addr, when set, fully replaces host and port of the URL (port defaults to the scheme default)", "port 0 is outside the grammar (it is treated as 'no port')"],
+        "explanation": "target/serverName theorems over Gen.tryTrimIpv6Brackets and Model.C18 mirrors under SplitContract; driver runs the executable model; harness diffs the shims and observes real dials.",
+    },
 }
 
 # Reasons for properties that are not claimed (yet).
